@@ -56,6 +56,10 @@ func runC01(c *Ctx) {
 	ruleNullFlag(c, p)
 	ruleStateSet(c, p)
 	ruleForwardAll(c, p, "C01.forward-all")
+	ruleForwardEvery(c, p, "C01.forward-every")
+	ruleAppendTail(c, p, "C01.tail")
+	rulePrepareMethodSet(c, p, "C01.prepare-methodset")
+	ruleLimbPairs(c, p, "C01.limbs")
 	ruleMapInfer(c, p, "C01.mapinfer")
 	ruleStringIdioms(c, p, "C01.idioms")
 	ruleResetBefore(c, p, "C01.reset")
@@ -279,6 +283,15 @@ func ruleKeyWidth(c *Ctx, p *core.Program, rule string) {
 			if !okc {
 				c.R.Unk(rule, sprintf("Prepare/width%d", bits), cfg, p.Pos(s.Pos()), "guard does not compare with a constant")
 				continue
+			}
+			// the compared count must not have been narrowed below 32 bits: uint16(n) < K holds again for n = 65536 + small
+			if cv, ok := bo.X.(*ssa.Convert); ok {
+				if bt, ok := cv.Type().Underlying().(*types.Basic); ok {
+					if w := map[types.BasicKind]int{types.Uint8: 8, types.Int8: 8, types.Uint16: 16, types.Int16: 16}[bt.Kind()]; w > 0 {
+						c.R.Bad(rule, sprintf("Prepare/width%d", bits), cfg, p.Pos(s.Pos()), sprintf("the guard compares the number of distinct values truncated to %d bits: a dictionary with 2^%d + j entries passes the test again and gets %d-bit keys", w, w, bits))
+						continue
+					}
+				}
 			}
 			// n < K : keys 0..K-2 ; n <= K : keys 0..K-1
 			maxKey := new(bigU).set(k)
